@@ -352,8 +352,9 @@ def main(tier, seed):
     cov = {
         "states": out.nontrivial, "transitions": out.transitions, "traces_validated_against_impl": out.conform,
         "evaluations": out.evaluations, "distinct_nontrivial": out.nontrivial,
-        "rule": ("full product of %d documents x 7 formats / writer-option variants x 4 destinations, then x 7 sources (content str/bytes, text/"
-                 "binary stream seekable and not, path) x up to 4 readers (deserialize, prov.read with format in lower and "
+        "rule": ("full product of %d documents x 7 formats / writer-option variants x 6 destinations (returned str, StringIO, "
+                 "GB18030 text file, tempfile text wrapper, BytesIO, path), then x 9 sources (content str/bytes, text/"
+                 "binary stream seekable and not, GB18030 text file, tempfile text wrapper, path) x up to 4 readers (deserialize, prov.read with format in lower and "
                  "upper case, prov.read without format); distinct = (document, format) cell; non-trivial = all "
                  "destinations compared and all sources read" % len(sp.docs)),
         "samples": out.samples[:2], "exhaustive": True, "cells": len(items),
